@@ -326,15 +326,19 @@ func main() {
 		switch st.kind {
 		case "good":
 			return map[string][]byte{fmt.Sprintf("s%d-cert.pem", st.id): goodSets[st.id].pemC, fmt.Sprintf("s%d-key.pem", st.id): keyPEM}
+		case "good2": // sets id and id+1 together: the next load may be a strict subset of this one
+			return map[string][]byte{fmt.Sprintf("s%d-cert.pem", st.id): goodSets[st.id].pemC, fmt.Sprintf("s%d-key.pem", st.id): keyPEM,
+				fmt.Sprintf("s%d-cert.pem", st.id+1): goodSets[st.id+1].pemC, fmt.Sprintf("s%d-key.pem", st.id+1): keyPEM}
 		default: // bad: a good pair plus an unusable one -> loadCertificates fails as a whole
 			return map[string][]byte{"s0-cert.pem": goodSets[0].pemC, "s0-key.pem": keyPEM,
 				fmt.Sprintf("zz%d-cert.pem", st.id): []byte("-----BEGIN CERTIFICATE-----\nAAAA\n-----END CERTIFICATE-----\n"), fmt.Sprintf("zz%d-key.pem", st.id): keyPEM}
 		}
 	}
 	type wres struct {
-		once   bool
-		script []step
-		trace  []string
+		once    bool
+		script  []step
+		trace   []string
+		refresh time.Duration
 	}
 	results := make([]wres, nScripts)
 	var wg sync.WaitGroup
@@ -343,9 +347,11 @@ func main() {
 		n := 2 + r.Intn(3)
 		script := make([]step, n)
 		for i := range script {
-			switch k := r.Intn(10); {
+			switch k := r.Intn(11); {
 			case k < 2:
 				script[i] = step{"err", 0}
+			case k == 10:
+				script[i] = step{"good2", r.Intn(2)}
 			case k < 6:
 				script[i] = step{"good", r.Intn(3)}
 			default:
@@ -361,6 +367,8 @@ func main() {
 			{{"bad", 0}, {"good", 0}, {"good", 0}},
 			{{"good", 1}, {"bad", 1}, {"bad", 1}, {"good", 1}},
 			{{"bad", 1}, {"bad", 0}, {"good", 2}},
+			{{"good2", 0}, {"good", 0}, {"good", 1}},
+			{{"good2", 1}, {"good", 2}, {"good2", 1}, {"good", 1}},
 		}
 		if si < len(directed) {
 			once, script = false, directed[si]
@@ -404,16 +412,19 @@ func main() {
 			}
 			ch := make(chan []tls.Certificate)
 			done := make(chan struct{})
-			refresh := time.Second
+			// the loop must not refresh more often than once a second whatever it is asked for
+			refresh := []time.Duration{time.Second, time.Millisecond, 200 * time.Millisecond, 999 * time.Millisecond}[si%4]
 			if res.once {
 				refresh = 0
 			}
+			res.refresh = refresh
 			go func() { cert.VerifWatch(ch, refresh, "scripted", loadFn); close(done) }()
 			go func() {
 				for certs := range ch {
 					x, _ := x509.ParseCertificate(certs[0].Certificate[0])
 					id := -1
 					fmt.Sscanf(x.Subject.CommonName, "set%d.example", &id)
+					id += 10 * (len(certs) - 1) // a two-certificate set is a different publication
 					mu.Lock()
 					evs = append(evs, ev{time.Now(), "publish", id})
 					mu.Unlock()
@@ -473,13 +484,15 @@ func main() {
 				items[i] = "LoadErr"
 			case "good":
 				items[i] = fmt.Sprintf("(Blocks %d (Some %d))", 10+st.id, st.id)
+			case "good2":
+				items[i] = fmt.Sprintf("(Blocks %d (Some %d))", 30+st.id, 10+st.id)
 			default:
 				items[i] = fmt.Sprintf("(Blocks %d None)", 20+st.id)
 			}
 			human = append(human, fmt.Sprintf("%s%d", st.kind, st.id))
 		}
 		run.Add("watch", vh.App("CWatch", vh.Bool(res.once), vh.List(items), vh.List(res.trace)),
-			map[string]interface{}{"once": res.once, "script": human, "trace": res.trace})
+			map[string]interface{}{"once": res.once, "refresh": res.refresh.String(), "script": human, "trace": res.trace})
 	}
 	run.Finish(preamble, run.Scale(80, 400))
 }
